@@ -236,7 +236,25 @@ func runC03(r *Run, p *Prog) {
 			r.Unresolved("P6", "PipeCon")
 			return
 		}
-		for _, m := range []struct{ name, field string }{{"Read", "reader"}, {"Write", "writer"}} {
+		// the two pipe ends by type (the member with a Read method, the member with a Write method), not by name
+		rdF, wrF := "", ""
+		if st, ok := pc.Underlying().(*types.Struct); ok {
+			for i := 0; i < st.NumFields(); i++ {
+				ms := types.NewMethodSet(st.Field(i).Type())
+				hasR, hasW := ms.Lookup(nil, "Read") != nil, ms.Lookup(nil, "Write") != nil
+				switch {
+				case hasR && !hasW:
+					rdF = st.Field(i).Name()
+				case hasW && !hasR:
+					wrF = st.Field(i).Name()
+				}
+			}
+		}
+		if rdF == "" || wrF == "" {
+			r.Unresolved("P6", "the read end and the write end among PipeCon's members")
+			return
+		}
+		for _, m := range []struct{ name, field string }{{"Read", rdF}, {"Write", wrF}} {
 			f := p.Func(pkgVarlink, "PipeCon."+m.name)
 			ok := false
 			detail := "method missing"
@@ -270,7 +288,7 @@ func runC03(r *Run, p *Prog) {
 				_, isCall := cs.Instr.(*ssa.Call)
 				closed := 0
 				if inClose {
-					for _, fld := range []string{"reader", "writer"} {
+					for _, fld := range []string{rdF, wrF} {
 						fld := fld
 						ok, _ := everyPathPasses(f, nil, func(i ssa.Instruction) bool { return i == cs.Instr }, func(i ssa.Instruction) bool {
 							c, ok := i.(*ssa.Call)
@@ -305,8 +323,8 @@ func runC03(r *Run, p *Prog) {
 						continue // a by-value receiver spill, not a literal
 					}
 					n++
-					rd, wr := termsOf(T, fs["reader"]), termsOf(T, fs["writer"])
-					okk := len(fs["reader"]) == 1 && pipeOrigin(T, fs["reader"][0], "exec.Cmd.StdoutPipe", 0) && len(fs["writer"]) == 1 && pipeOrigin(T, fs["writer"][0], "exec.Cmd.StdinPipe", 0)
+					rd, wr := termsOf(T, fs[rdF]), termsOf(T, fs[wrF])
+					okk := len(fs[rdF]) == 1 && pipeOrigin(T, fs[rdF][0], "exec.Cmd.StdoutPipe", 0) && len(fs[wrF]) == 1 && pipeOrigin(T, fs[wrF][0], "exec.Cmd.StdinPipe", 0)
 					r.Ob("P6", shortName(f), "bridge reads the child's stdout and writes its stdin", a.Pos(), okk, fmt.Sprintf("reader=%v writer=%v", rd, wr))
 				}
 			}
